@@ -10,12 +10,12 @@ SPEC = """
 pub open spec fn empty_class(t: Type, ctx: &BindgenContext) -> bool {
     match t.s_canonical(ctx).s_kind() { TypeKind::Comp(c) => c.s_fields().len() == 0 && c.s_bases().len() == 0 && !c.s_own_virtual(), _ => false }
 }
+pub open spec fn s_outside(ctx: &BindgenContext, id: TypeId) -> SizednessResult {
+    if !ctx.s_allowlisted().s_contains(id.0) && (match ctx.s_type(id).s_layout(ctx) { Some(l) => l.size != 0, None => false }) && !empty_class(ctx.s_type(id), ctx)
+    { SizednessResult::NonZeroSized } else { SizednessResult::ZeroSized }
+}
 pub open spec fn s_lookup_sizedness(ctx: &BindgenContext, id: TypeId) -> SizednessResult {
-    match ctx.s_sized_entry(id) {
-        Some(r) => r,
-        None => if !ctx.s_allowlisted().s_contains(id.0) && (match ctx.s_type(id).s_layout(ctx) { Some(l) => l.size != 0, None => false }) && !empty_class(ctx.s_type(id), ctx)
-                { SizednessResult::NonZeroSized } else { SizednessResult::ZeroSized },
-    }
+    match ctx.s_sized_entry(id) { Some(r) => r, None => s_outside(ctx, id) }
 }
 """
 
@@ -26,21 +26,24 @@ UNIT = {
     "items": [
         {"kind": "enum", "file": "bindgen/ir/analysis/sizedness.rs", "name": "SizednessResult", "prefix": "#[derive(Copy, Clone, PartialEq, Eq, Structural)]"},
         {"kind": "raw", "label": "spec", "text": SPEC},
-        {"kind": "fn", "file": CX, "name": "lookup_sizedness", "impl": r"^impl BindgenContext$", "impl_nth": 0, "impl_header": "impl BindgenContext", "impl_name": "BindgenContext", "ret": "r",
-         "assert_to_requires": True,
-         "r2_spec_form": [("self.in_codegen_phase()", "self.s_codegen_phase()")],
+        # the judgement for a type the analysis has no answer for (shared by lookup_sizedness and SizednessAnalysis::constrain)
+        {"kind": "fn", "file": CX, "name": "sizedness_outside_analysis", "impl": r"^impl BindgenContext$", "impl_nth": 0, "impl_header": "impl BindgenContext", "impl_name": "BindgenContext", "ret": "r",
          "subst": [
-             ("self.sizedness.as_ref().unwrap().get(&id)", "self.sized_entry(id)", 1, "R5 table lookup"),
              ("&id.into()", "&id.item()", 1, "R12"),
              ("ty.layout(self).is_some_and(|layout| layout.size != 0)", "(match ty.layout(self) { Some(layout) => layout.size != 0, None => false })", 1, "R7 Option::is_some_and"),
          ],
          "ensures": [
-             "r == s_lookup_sizedness(self, id)",
+             "r == s_outside(self, id)",
              # C10 "every use of a blocklisted type still names it": a type left out of the output is NOT taken for an empty base
-             # when the C compiler gives it a size and it has members, bases or a vtable (defect F28)
-             "!self.s_allowlisted().s_contains(id.0) && self.s_sized_entry(id).is_none() && self.s_type(id).s_layout(self).is_some() && self.s_type(id).s_layout(self).unwrap().size != 0 "
+             # when the C compiler gives it a size and it has members, bases or a vtable (defects F28, F36)
+             "!self.s_allowlisted().s_contains(id.0) && self.s_type(id).s_layout(self).is_some() && self.s_type(id).s_layout(self).unwrap().size != 0 "
              "&& !empty_class(self.s_type(id), self) ==> r == SizednessResult::NonZeroSized",
          ]},
+        {"kind": "fn", "file": CX, "name": "lookup_sizedness", "impl": r"^impl BindgenContext$", "impl_nth": 0, "impl_header": "impl BindgenContext", "impl_name": "BindgenContext", "ret": "r",
+         "assert_to_requires": True,
+         "r2_spec_form": [("self.in_codegen_phase()", "self.s_codegen_phase()")],
+         "subst": [("self.sizedness.as_ref().unwrap().get(&id)", "self.sized_entry(id)", 1, "R5 table lookup")],
+         "ensures": ["r == s_lookup_sizedness(self, id)"]},
         {"kind": "enum", "file": CP, "name": "BaseKind", "prefix": "#[derive(Copy, Clone, PartialEq, Eq, Structural)]"},
         {"kind": "struct", "file": CP, "name": "Base"},
         {"kind": "fn", "file": CP, "name": "is_virtual", "impl": r"^impl Base$", "impl_header": "impl Base", "impl_name": "Base", "ret": "r",
